@@ -173,6 +173,16 @@ Theorem builtin_leaves_good :
      leaf_good (LSampling (repeat cv n) idx b cv) /\ leaf_good (LWSum (repeat cv n) idx b cv) /\
      leaf_good (LFlatten (repeat cv n) idx cv) /\ leaf_good (LUnflatten (repeat cv n) idx cv)).
 Proof. exact (leaves_good_all OK). Qed.
+Theorem projection_and_pointwise_leaves_good :
+  (forall (ws : list (list T)) (pw : list T) i, (i < length ws)%nat -> length pw = length ws ->
+     nth i pw nzero = none_ -> vconj (pweights pw ws) = pweights pw ws -> vconj (nth i ws []) = nth i ws [] ->
+     leaf_good (LProj ws pw i) /\ leaf_good (LProjAdj ws pw i)) /\
+  (forall (wb pw : list T) (g : list (list T)) (ow : list T), g <> [] ->
+     length pw = length g -> length ow = length g ->
+     Forall (fun gi => length gi = length wb) g ->
+     Forall (fun p => nconj p = p /\ p <> nzero) pw -> Forall (fun o => nconj o = o) ow ->
+     vconj wb = wb -> leaf_good (LPtInner wb pw g ow) /\ leaf_good (LPtInnerAdj wb pw g ow)).
+Proof. exact (conj (leaf_good_proj OK) (leaf_good_ptinner OK)). Qed.
 End Builtins.
 Print Assumptions scaling_adjoint.
 Print Assumptions matrix_adjoint_partial.
@@ -202,6 +212,14 @@ Theorem gradient_divergence_1d_adjoint_partial : forall (c dx : R) (n : nat) (m 
   leaf_ok (LGrad (repeat c n) (repeat c n) [n] m p [dx]) /\
   leaf_ok (LDiv (repeat c n) (repeat c n) [n] m p [dx]).
 Proof. exact leaf_ok_grad_1d. Qed.
+(* ... and the 1-d PartialDerivative leaf is [leaf_good] (the tables are involutive), so trees containing it
+   satisfy double_adjoint_good_real *)
+Theorem partial_derivative_leaf_good : forall (c dx : R) (n : nat) (m : meth) (p : pmode),
+  dx <> 0%R -> (2 <= n)%nat ->
+  bnd_in_range n (boundary_tab p m) = true ->
+  bnd_in_range n (boundary_tab (adj_padding p) (adj_method m)) = true ->
+  leaf_good (LPDeriv (repeat c n) (repeat c n) [n] 0 m p dx).
+Proof. exact leaf_good_pderiv_1d. Qed.
 
 (* Real <-> complex operators, realified (C^n = R^2n as re ++ im with weights w ++ w, so that
    [cinner] is the REAL PART of the complex inner product): RealPart/ImagPart of a real space,
@@ -248,6 +266,15 @@ Theorem matrix_adjoint_other_range_refuted : identity_fails (LMatrix [1] [2] [[1
 Proof. exact matrix_weighted_refuted. Qed.
 Theorem sampling_adjoint_const_weight_refuted : identity_fails (LSampling [2] [0%nat] false 1).
 Proof. exact sampling_weighted_refuted. Qed.
+(* the precondition of sampling_adjoint_partial is NECESSARY: if the identity holds for the single sampling
+   point j then the domain weight at j is the cell volume the code divides by *)
+Theorem sampling_adjoint_precondition_necessary : forall (wd : list R) (cv : R) (j : nat),
+  cv <> 0 -> (j < length wd)%nat ->
+  (forall x y, length x = length wd -> length y = 1%nat ->
+     cinner (ones 1) (eval_leaf (LSampling wd [j] false cv) x) y =
+     cinner wd x (eval (leaf_adjoint (LSampling wd [j] false cv)) y)) ->
+  nth j wd 0 = cv.
+Proof. exact sampling_identity_forces_cell_volume. Qed.
 Theorem sampling_adjoint_nodes_on_bdry_refuted : identity_fails (LSampling [1/4; 1/2; 1/4] [0%nat] false (1/2)).
 Proof. exact sampling_bdry_refuted. Qed.
 Theorem flattening_adjoint_refuted : identity_fails (LFlatten [2] [0%nat] 1).
